@@ -1000,8 +1000,8 @@ def gen_avq(tier, rng):
             tv0 = next((t for p_, t in pk if p_ == V), None)
             if tv0 is not None and any(p_ == V and t < tv0 for p_, t in pk):
                 mono = False
-            if rot == 0 and any(True for _ in []):
-                mono = False
+            if any(t < 0 for _, t in pk):
+                mono = False          # the contract of c07_queue_rebase: timestamps are not negative
             yield Case(avq_line(rot, pk, mono), cls="avq-random")
         for _ in range(20 if q else 500):
             pk = [(rng.choice([A, V]), rng.choice([0, 1, 1000, 1001, 2001, 5000, 10 ** 6, -5])) for _ in range(rng.choice([4, 12, 30]))]
@@ -1094,6 +1094,21 @@ def gen_cases(tier, rng):
     for d in grid(rng, tier):
         line, _ = build(d)
         yield Case(line, cls=d["op"] + "-" + d["v"] + "-" + d["a"])
+    # GB28181 "wait for parameter sets" gate: streams that start in the middle of a GOP, parameter sets in unusual order
+    # (frames before the first SPS / PPS (VPS) are dropped by the unpacker; correspondence only)
+    for hevc in (False, True):
+        mk = (lambda t, n=8: hevc_nal(rng, t, n)) if hevc else (lambda t, n=8: avc_nal(rng, t, n))
+        ps = param_sets(rng, hevc)
+        idr, p = (mk(19), mk(1)) if hevc else (mk(5), mk(1))
+        orders = [[[p], [ps[-1], idr], [p], ps + [idr], [p], [p]], [[p], [ps[0]], [idr], [p], [p]], [[idr], [p], list(reversed(ps)) + [idr], [p], [p]]]
+        if hevc:
+            orders.append([[p], [ps[1], idr], [p], [ps[2], ps[0], ps[1], idr], [p], [p]])
+        for frames in orders:
+            es = dict(vcodec="h265" if hevc else "h264", acodec="none", vrate=90000, arate=8000, hevc=hevc, audio=[],
+                      video=[dict(ts=3600 * k, nals=f, key=False, params=[]) for k, f in enumerate(frames)])
+            for pes, pts in ((65000, "first"), (20, "all"), (30, "none")):
+                pk = ps_stream(rng, es, pes, pts, 1400)
+                yield Case("c07.ps 1024 %s" % ",".join(hex_tok(x) for x in pk), cls="ps-gate")
     # customize API: dispose, FeedRtmpMsg pass-through, options changed mid-stream (correspondence only)
     yield Case("c07.cust O:1:1,C:1210,P:97:0:0102,R:A:5:af0199,R:V:6:1701000000,D,P:97:23:0304,R:A:7:af0100,C:1210", cls="cust-api")
     yield Case("c07.cust P:96:0:0000000165,O:2:2,P:96:40:0000000165,P:96:80:000000016501,P:97:0:fff15080017ffc0102030405060708", cls="cust-api")
